@@ -251,7 +251,7 @@ def run_strop(case):
 # as data for Model/Leaf.v
 import string as _string
 
-TKEYS = {"field": 0, "value": 1, "regex": 2, "operator": 3, "flag_i": 4, "flag_m": 5, "flag_s": 6, "field1": 7,
+TKEYS = {"op": 14, "list": 15, "field": 0, "value": 1, "regex": 2, "operator": 3, "flag_i": 4, "flag_m": 5, "flag_s": 6, "field1": 7,
          "field2": 8, "timestamp_part": 9, "network": 10, "prefixlen": 11, "netmask": 12}
 TPL_ATTRS = {"l_eq": "eq_expression", "l_neq": "not_eq_expression", "l_sw": "startswith_expression",
              "l_nsw": "not_startswith_expression", "l_ew": "endswith_expression", "l_new": "not_endswith_expression",
@@ -266,7 +266,7 @@ TPL_ATTRS = {"l_eq": "eq_expression", "l_neq": "not_eq_expression", "l_sw": "sta
              "l_ffsw": "field_equals_field_startswith_expression", "l_ffew": "field_equals_field_endswith_expression",
              "l_ffct": "field_equals_field_contains_expression", "l_ts": "field_timestamp_part_expression",
              "l_ub_str": "unbound_value_str_expression", "l_ub_num": "unbound_value_num_expression",
-             "l_ub_re": "unbound_value_re_expression"}
+             "l_ub_re": "unbound_value_re_expression", "l_in": "field_in_list_expression"}
 BOOL_ATTRS = {"l_sw_sp": "startswith_expression_allow_special", "l_ew_sp": "endswith_expression_allow_special",
               "l_ct_sp": "contains_expression_allow_special",
               "l_csw_sp": "case_sensitive_startswith_expression_allow_special",
@@ -313,6 +313,7 @@ def export_cfg(B):
     K["l_re_fm"] = fl.get(SigmaRegularExpressionFlag.MULTILINE)
     K["l_re_fs"] = fl.get(SigmaRegularExpressionFlag.DOTALL)
     K["l_eq_token"] = g("eq_token")
+    K["l_or_in_op"], K["l_and_in_op"], K["l_list_sep"] = g("or_in_operator"), g("and_in_operator"), g("list_separator")
     bv = g("bool_values") or {}
     K["l_true"], K["l_false"] = bv.get(True), bv.get(False)
     co = g("compare_operators")
@@ -462,4 +463,29 @@ def run_leaf(case):
         # the same leaf again and sibling leaves of every operator shape, on the same class
         out["r2"] = _outcome(lambda: Backend.convert_condition_field_eq_val(b, leaf, st))
         out["sib1"] = _siblings(B)
+    return out
+
+
+def run_inlist(case):
+    cfg = case["cfg"]
+    if cfg["family"] == "vb":
+        B = make_backend(cfg["k"])
+    else:
+        from sigma.backends.test import TextQueryTestBackend
+        _counter[0] += 1
+        B = type(f"TBackend{_counter[0]}", (TextQueryTestBackend,), dict(cfg.get("attrs", {})))
+    b = B()
+    f = case["field"]
+    vals = [mk_value(v) for v in case["values"]]
+    out = {"K": export_cfg(B), "extra": _wordchars(f), "fo": field_oracle(B, f), "vals": []}
+    pat = B.str_quote_pattern
+    for v in vals:
+        if isinstance(v, SigmaString):
+            pm = bool(pat.match(str(v))) if pat is not None else False
+            out["vals"].append([["cstr" if isinstance(v, SigmaCasedString) else "str", parts(v)], pm])
+        else:
+            out["vals"].append([["num", str(v)], False])
+    cls = ConditionOR if case["disj"] else ConditionAND
+    cond = cls([ConditionFieldEqualsValueExpression(f, v) for v in vals])
+    out["r"] = _outcome(lambda: b.convert_condition_as_in_expression(cond, ConversionState()))
     return out
